@@ -7,10 +7,10 @@ namespace Sem
 theorem usedFlags_get (n : Nat) (marks : List Nat) (k : Nat) :
     (usedFlags n marks)[k]? = if k < n then some (decide (k ∈ marks)) else none := by
   unfold usedFlags
-  rw [List.getElem?_map, List.getElem?_range']
-  · by_cases h : k < n
-    · simp [h]
-    · simp [h]
+  rw [List.getElem?_map]
+  by_cases h : k < n
+  · simp [h]
+  · simp [h]
 
 theorem usedFlags_length (n : Nat) (marks : List Nat) : (usedFlags n marks).length = n := by
   simp [usedFlags]
